@@ -488,7 +488,16 @@ func c16Scenario(c *Ctx, idx int, r *Rng) (mline, mimpl, mcase string) {
 					nb = r.Bytes(Pick(r, []int{1023, 1024, 1025, 3000, 70000}))
 					c.R.Count("push.non-lfs-lockable-big")
 				}
-				if old := versions[g]; len(old) >= 2 && r.Chance(25) {
+				if k == 1 && len(touch) == 1 && touch[0] != g && r.Chance(30) {
+					// the SAME new content as the other file of this push (a copy): one blob, two paths —
+					// rev-list names it once (D27: the lock check may never see this path)
+					if b0, err := os.ReadFile(filepath.Join(w.dir, touch[0])); err == nil {
+						nb = b0
+						reverted[g] = true
+						reverted[touch[0]] = true
+						c.R.Count("push.same-content-two-paths")
+					}
+				} else if old := versions[g]; len(old) >= 2 && r.Chance(25) {
 					nb = old[0] // back to a version the remote already has (D27: the blob is not listed as new)
 					reverted[g] = true
 				}
@@ -623,6 +632,9 @@ func c16(c *Ctx) {
 	r := NewRng(c.Seed ^ 0xC16)
 	c.R.Rule = "cases = sequences of 4-15 operations {lock, unlock, unlock --force, unlock --id, locks, locks --local/--cached/--path/--verify, edit, commit, checkout, push} by the client under test over 5 lockable paths (incl. a name with a blank and a non-LFS lockable file) and non-lockable files, interleaved with another user's lock/unlock on the server, server answers ok/403/404/501/500 and paginated lists, locksverify true/false/unset, lfs.setlockablereadonly on/off; after every step the server table and `git lfs locks --local --json` are compared with the model; push exits are judged against the table and `git log --name-only`; a final full-scan checkout hook run is followed by a write-bit check of every lockable file; non-trivial = sequence with >= 1 lock-state step; distinct = different (seed, index)"
 	n := c.N(80, 1500)
+	if c.Replay == "" {
+		c16CommitHook(c, r.Fork())
+	}
 	var wg sync.WaitGroup
 	sem := make(chan struct{}, 10)
 	var mu sync.Mutex
